@@ -268,12 +268,18 @@ def run_check(spec, tier, seed, replay=None):
     def shrink_oracle(part, h, key):
         exe = hexe[part.harness]
 
+        # shrinking must not cost more than the check: candidates run with a short timeout (a candidate that hangs is simply "not
+        # this failure"), and a failure that IS a hang is shrunk with a handful of runs only
+        is_hang = key == "safety:timeout"
+        t_run = part.timeout if is_hang else min(part.timeout, 60)
+
         def fails(c):
-            io, ioc, ierr = core.run_impl(exe, c, part.harness_args, timeout=part.timeout)
+            io, ioc, ierr = core.run_impl(exe, c, part.harness_args, timeout=t_run)
             if key.startswith("safety:"):
                 return ioc == key.split(":")[1]
             return ioc == "ok" and any(k == key for k, _, _ in safe_oracle(part, c, io))
-        return core.ddmin(h, fails, budget=getattr(part, "shrink_budget", None) or (100 if tier == "quick" else 400), shrink_line=part.shrink_line)
+        budget = 4 if is_hang else (getattr(part, "shrink_budget", None) or (100 if tier == "quick" else 400))
+        return core.ddmin(h, fails, budget=budget, shrink_line=part.shrink_line)
 
     done_keys = set()
     for part, name, h, key, what, idx in all_oracle_fail:
